@@ -10,7 +10,8 @@
       sfmodel g72x script          scripts:
 
       == <name>
-      codec g72x bits=<2|3|4|5> [normF=0|1 normD=0|1 variant=sse2|lrint]
+      codec g72x bits=<2|3|4|5> [ch=<n>] [normF=0|1 normD=0|1 variant=sse2|lrint]
+      openw                                 -> open=ok | open=fail   (g72x_init refuses every channel count but 1; so does `load`)
       w <ty> <i|f> <count> <hex items>      -> ret=<n> err=0
       close                                 -> data=<hex>     the bytes g72x_close leaves in the data region
       load <hex>                            -> frames=<n>     read handle over these bytes (data offset .. end of file)
@@ -29,6 +30,7 @@ namespace Driver.G72x
 structure DS where
   rate : Rate := g721
   conv : Conv := {}
+  ch   : Nat := 1
   ws   : Block.WState St := (writer g721).init St.init
   rh   : Option RHandle := none
   sticky : Bool := false
@@ -41,7 +43,8 @@ def runLine (ds : DS) (line : String) : DS × Option String :=
   | [] => (ds, none)
   | "codec" :: _ :: rest =>
     let r := rateOf (kvNat rest "bits" 4)
-    ({ rate := r, conv := convOf rest, ws := (writer r).init St.init }, none)
+    ({ rate := r, conv := convOf rest, ch := kvNat rest "ch" 1, ws := (writer r).init St.init }, none)
+  | ["openw"] => (ds, some (if initOk ds.ch then "open=ok" else "open=fail"))
   | ["w", tyS, _, nS, hex] =>
     match tyOf tyS with
     | none => (ds, some "bad-op")
@@ -54,6 +57,7 @@ def runLine (ds : DS) (line : String) : DS × Option String :=
     let bytes := ((writer ds.rate).close true ds.ws).bytes
     ({ ds with ws := (writer ds.rate).init St.init }, some ("data=" ++ hexBytes bytes))
   | "load" :: rest =>
+    if !initOk ds.ch then (ds, some "open=fail") else
     let h := RHandle.open ds.rate (parseHexBytes (rest.headD ""))
     ({ ds with rh := some h, sticky := false }, some s!"frames={h.frames}")
   | ["r", tyS, _, nS] =>
